@@ -26,7 +26,8 @@ EXHAUSTIVE = {"quick": False, "thorough": False}
 N_SPECS = {"quick": 40000, "thorough": 1500000}
 SRC_FL = ["async_class", "async_gen", "sync_iter", "sync_gen", "getitem_seq", "async_class_bare"]
 FN_FL = ["def", "async_def", "callobj", "partial", "awaitobj"]
-EXC = ["Injected", "TypeError", "ValueError", "LookupError", "InjectedBase", "RuntimeError", "AttributeError"]
+EXC = ["Injected", "TypeError", "ValueError", "LookupError", "InjectedBase", "RuntimeError", "AttributeError", "KeyError",
+       "IndexError", "AssertionError"]
 
 
 def cases(tier, seed, shard, nshards):
@@ -115,6 +116,9 @@ def run_case(case, stats: Counter):
     spec = case["spec"]
     tool = spec["tool"]
     flav = list(case["flav"])[:len(spec["srcs"])] or ["async_class"]
+    if case["exc"] == "IndexError":
+        # for a __getitem__ sequence IndexError IS the end-of-sequence signal, not a failure
+        flav = [f if f != "getitem_seq" else "sync_iter" for f in flav]
     fnfl = case.get("fnfl", "def")
     gen_twin = flav[0].endswith("gen")
     steps = spec.get("steps")
